@@ -285,10 +285,10 @@ Proof. apply pdr_same_module. Qed.
 Section Sessions.
   Variable burst : N -> N -> N -> N.
 
-  Lemma session_cmd_cases ps fs qs s c : owned_by s fs qs -> In c (session_cmds burst ps fs qs) ->
+  Lemma session_cmd_cases ps fs qs s c : owned_by s fs qs -> In c (Locks.session_cmds burst ps fs qs) ->
     (c_mod c = MPdr /\ In c (pdr_cmds ps)) \/ cmd_of_fseid c s.
   Proof.
-    intros [Of Oq] H. unfold session_cmds, add_cmds, del_cmds, pdr_cmds in *.
+    intros [Of Oq] H. unfold Locks.session_cmds, add_cmds, del_cmds, pdr_cmds in *.
     rewrite !in_app_iff, !in_flat_map in H. rewrite in_app_iff, !in_flat_map.
     destruct H as [[(p & Ip & Ic)|[(f & If & Ic)|(q & Iq & Ic)]]|[(p & Ip & Ic)|[(f & If & Ic)|(q & Iq & Ic)]]].
     - left. split; [apply (pdr_cmds_mod p); apply in_or_app; left; exact Ic|left; exists p; tauto].
@@ -305,7 +305,7 @@ Section Sessions.
   (* sessions with different local SEIDs (and PDR match keys that differ) never address the same slot *)
   Lemma sessions_disjoint s1 s2 ps1 fs1 qs1 ps2 fs2 qs2 :
     s1 <> s2 -> owned_by s1 fs1 qs1 -> owned_by s2 fs2 qs2 -> keys_disjoint (pdr_cmds ps1) (pdr_cmds ps2) ->
-    keys_disjoint (session_cmds burst ps1 fs1 qs1) (session_cmds burst ps2 fs2 qs2).
+    keys_disjoint (Locks.session_cmds burst ps1 fs1 qs1) (Locks.session_cmds burst ps2 fs2 qs2).
   Proof.
     intros Hne O1 O2 Dp c1 c2 I1 I2.
     destruct (session_cmd_cases _ _ _ _ _ O1 I1) as [[M1 P1]|F1];
@@ -458,8 +458,8 @@ Section EstIsolated.
     inversion Hu; subst l'. destruct (est_accepted_tables burst _ _ _ _ _ _ _ _ _ _ _ _ _ _ _ _ _ _ H Hf) as [Hc Ht].
     pose proof (est_owned _ _ _ _ _ _ _ _ _ _ _ _ _ _ _ _ _ _ H Hf) as Ho.
     rewrite Ht, !tab_of_eq. apply apply_cmds_untouched. intros x Ix.
-    assert (In x (session_cmds burst (view (s_pdrs s)) (view (s_fars s)) (view (s_qers s)))) as Ix'.
-    { unfold session_cmds. apply in_or_app. left. rewrite <- Hc. exact Ix. }
+    assert (In x (Locks.session_cmds burst (view (s_pdrs s)) (view (s_fars s)) (view (s_qers s)))) as Ix'.
+    { unfold Locks.session_cmds. apply in_or_app. left. rewrite <- Hc. exact Ix. }
     destruct (session_cmd_cases burst _ _ _ _ _ Ho Ix') as [[Mx _]|Fx].
     - unfold hits. rewrite Mx. destruct Hs as [[-> _]|[[-> _]|[-> _]]]; reflexivity.
     - (* a pseudo command that sits in the slot (m, k) *)
